@@ -30,7 +30,7 @@ EXHAUSTIVE = "method x protected target x spelling x flag matrix for Array and R
 METHODS = ['write_txt', 'write_jsonfile', 'write_jsondict', 'update_jsondict', 'delete_files'] + \
           ['open_file:' + m for m in ['w', 'a', 'x', 'r+', 'rb+', 'r+b', 'wb', 'ab', 'w+', 'a+', 'xb']]
 SPELLINGS = ['str', 'Path', './', './/', 'detour', 'detour-values', 'dupsep', 'abs', 'absPath', 'slash', 'dot-mid']
-MUST_HIT = ['kind:Array', 'kind:Ragged', 'spell:Path', 'spell:./', 'spell:detour', 'target:subdir-file', 'target:dirname', 'target:absent',
+MUST_HIT = ['path-recreated-as-other-kind', 'kind:Array', 'kind:Ragged', 'spell:Path', 'spell:./', 'spell:detour', 'target:subdir-file', 'target:dirname', 'target:absent',
             'target:new-in-subdir', 'user:json', 'user:txt', 'user:overwrite-refused', 'user:delete', 'mixed-delete', 'read-protected-ok'] + \
            ['m:' + m for m in METHODS]
 
@@ -107,6 +107,8 @@ def execute(ctx, spec):
         return _exec_mixdel(ctx, spec, out)
     if spec['f'] == 'fuzzpath':
         return _exec_fuzzpath(ctx, spec, out)
+    if spec['f'] == 'recreate':
+        return _exec_recreate(ctx, spec, out)
     return _exec_user(ctx, spec, out)
 
 
@@ -184,7 +186,10 @@ SAFE = 'abcdefghijklmnopqrstuvwxyzABCDEFGHIJKLMNOPQRSTUVWXYZ0123456789_-'
 
 @st.composite
 def st_user(draw):
-    name = draw(st.text(alphabet=SAFE, min_size=1, max_size=8)) + draw(st.sampled_from(['.txt', '.json', '', '.dat']))
+    name = draw(st.one_of(st.text(alphabet=SAFE, min_size=1, max_size=8).map(lambda s: s),
+                          st.sampled_from(['README.txt.bak', 'arrayvalues.bin.sha256', 'metadata.json.orig', 'arraydescription.json~', 'values.csv',
+                                           'values2', 'indices_old.txt', 'READM', 'value', 'metadata.jso']))) + \
+        draw(st.sampled_from(['.txt', '.json', '', '.dat', '']))
     fam = draw(st.sampled_from(['json', 'txt']))
     spec = {'f': 'user', 'kind': draw(st.sampled_from(['Array', 'Ragged'])), 'name': name, 'fam': fam, 'asPath': draw(st.booleans()),
             'others': draw(st.lists(st.text(alphabet=SAFE, min_size=1, max_size=5).map(lambda s: s + '.u'), max_size=3, unique=True))}
@@ -281,6 +286,56 @@ def _exec_user(ctx, spec, out):
     return out
 
 
+def _exec_recreate(ctx, spec, out):
+    """The same path holds first one kind of array, then the other: what is protected must follow the current occupant."""
+    import darr
+    out.cls('path-recreated-as-other-kind')
+    with ctx.scratch() as d:
+        p = os.path.join(d, 'x.darr')
+        if spec['first'] == 'Ragged':
+            r = darr.asraggedarray(p, [[1, 2], [3]], dtype='int16', accessmode='r+')
+            # in a ragged array's top directory these are ordinary user files
+            for nm in ('arrayvalues.bin', './arrayvalues.bin'):
+                r.datadir.write_txt(nm, 'user file', overwrite=True)
+                r.datadir.delete_files([nm])
+            if spec['how'] == 'delete':
+                darr.delete_raggedarray(r)
+                a = darr.asarray(p, np.arange(6, dtype='int32'), accessmode='r+')
+            else:
+                a = darr.asarray(p, np.arange(6, dtype='int32'), accessmode='r+', overwrite=True)
+            names = ['arrayvalues.bin', './arrayvalues.bin']
+        else:
+            a0 = darr.asarray(p, np.arange(6, dtype='int32'), accessmode='r+')
+            os.mkdir(os.path.join(p, 'values'))
+            for nm in ('values/new.txt', 'values/arrayvalues.bin'):
+                a0.datadir.write_txt(nm, 'user file', overwrite=True)
+                a0.datadir.delete_files([nm])
+            os.rmdir(os.path.join(p, 'values'))
+            if spec['how'] == 'delete':
+                darr.delete_array(a0)
+                a = darr.asraggedarray(p, [[1, 2], [3]], dtype='int16', accessmode='r+')
+            else:
+                a = darr.asraggedarray(p, [[1, 2], [3]], dtype='int16', accessmode='r+', overwrite=True)
+            names = ['values/new.txt', 'values/arrayvalues.bin']
+        before = snapshot(p)
+        for nm in names:
+            for method in ('write_txt', 'delete_files', 'open_file:a', 'write_jsondict'):
+                try:
+                    call_method(a.datadir, method, nm, True)
+                    exc = None
+                except Exception as e:
+                    exc = e
+                after = snapshot(p)
+                tag = f"recreated:{spec['first']}-first:{spec['how']}:{method}"
+                if after != before:
+                    out.viol('protected-file-modified', tag, f'{method}({nm!r}): ' + '; '.join(diff(before, after)))
+                    return out
+                if not isinstance(exc, OSError):
+                    out.viol('protected-not-refused', tag, f'{method}({nm!r}) -> {type(exc).__name__ if exc else "no exception"}')
+                    return out
+    return out
+
+
 def _exec_fuzzpath(ctx, spec, out):
     """Plain replay of an input found by the atheris campaign: one public call with an arbitrary name string."""
     import darr
@@ -359,6 +414,9 @@ def matrix():
         if kind == 'Ragged':
             for pos in ('first', 'last', 'middle'):
                 yield {'f': 'mixdel', 'kind': kind, 't': 'values/arrayvalues.bin', 's': 'str', 'pos': pos}
+    for first in ('Ragged', 'Array'):
+        for how in ('delete', 'overwrite'):
+            yield {'f': 'recreate', 'first': first, 'how': how}
 
 
 def task_matrix(ctx, col, shard):
